@@ -34,9 +34,16 @@ NONSQUARE = [[[[0, 0], [11, 7]], [[12, 0], [23, 3]], [[12, 4], [23, 7]]],
              [[[12, 8], [35, 15]], [[36, 8], [51, 27]]]]
 
 
+# a coarse box covered by finer data except for a strip ONE coarse cell wide beside the high edge of the refined patch (in x for
+# the first coarse box, in y for the second): the strip's pixels can only come from the coarse box
+STRIP = [[[[0, 0], [7, 7]], [[8, 0], [15, 7]], [[0, 8], [7, 15]], [[8, 8], [15, 15]]],
+         [[[0, 0], [13, 15]], [[16, 0], [31, 13]]]]
+
+
 def scenarios(tier, seed):
     n = 6 if tier == "quick" else 10
-    return [{"kind": "plate", "seed": seed * 1000 + 950, "ndims": 2, "nf": 3, "nfiles": 2, "layout": "shuffled", "n0": [24, 8],
+    return [{"kind": "plate", "seed": seed * 1000 + 951, "ndims": 2, "nf": 2, "nfiles": 2, "layout": "shuffled", "n0": [16, 16],
+             "levels": STRIP, "geo_lo": [-2.0, 0.5], "dx0": [0.5, 0.125], "ncombos": 6}] + [{"kind": "plate", "seed": seed * 1000 + 950, "ndims": 2, "nf": 3, "nfiles": 2, "layout": "shuffled", "n0": [24, 8],
              "levels": NONSQUARE, "geo_lo": [1.0, -0.5], "dx0": [0.25, 0.5], "ncombos": 6}] + [{"kind": "plate", "seed": seed * 1000 + 900 + i, "ndims": 2, "nf": [3, 2, 4][i % 3], "nlevels": [3, 2, 1][i % 3],
              "nfiles": [2, 3, 1][i % 3], "layout": ["shuffled", "roundrobin"][i % 2], "n0": [[32, 16], [16, 48], [24, 8]][i % 3],
              "geo_lo": [1.0, 2.0], "dx0": [[0.1, 0.2], [0.5, 0.25], [1.0, 1.0]][i % 3], "box_sizes": [8, 16] if i % 2 else None,
